@@ -74,7 +74,7 @@ func (l Letter) String() string {
 
 // ---- resources and scopes ---------------------------------------------------
 
-const NumRes = 10
+const NumRes = 12
 
 func fillRes(i int, r pcommon.Resource) (url string) {
 	a := r.Attributes()
@@ -101,11 +101,16 @@ func fillRes(i int, r pcommon.Resource) (url string) {
 		a.PutStr("a", "true")
 	case 9: // only attributes that the encoder drops
 		fillAttrs(10, a)
+	case 10: // same number as 2, but a double
+		a.PutDouble("a", 1)
+	case 11: // int vs double nested in a list (pairs with 10/2 through the key only)
+		sl := a.PutEmptySlice("a")
+		sl.AppendEmpty().SetDouble(1)
 	}
 	return ""
 }
 
-const NumScope = 9
+const NumScope = 11
 
 func fillScope(i int, s pcommon.InstrumentationScope) (url string) {
 	switch i {
@@ -133,6 +138,12 @@ func fillScope(i int, s pcommon.InstrumentationScope) (url string) {
 	case 8:
 		s.SetName("n")
 		fillAttrs(10, s.Attributes())
+	case 9: // int vs double in a nested list: pairs with 10
+		s.SetName("n")
+		s.Attributes().PutEmptySlice("k").AppendEmpty().SetInt(200)
+	case 10:
+		s.SetName("n")
+		s.Attributes().PutEmptySlice("k").AppendEmpty().SetDouble(200)
 	}
 	return ""
 }
@@ -626,7 +637,7 @@ func (l Letter) BuildLogs() plog.Logs {
 
 // ---- metrics ---------------------------------------------------------------------
 
-const NumMetric = 47
+const NumMetric = 50
 
 func exemplar(e pmetric.Exemplar, kind int) {
 	switch kind {
@@ -864,6 +875,35 @@ func fillMetric(i int, m pmetric.Metric) {
 			dp := g.DataPoints().AppendEmpty()
 			dp.SetIntValue(int64(k))
 			fillAttrs(7, dp.Attributes())
+		}
+	case 47: // exp histogram mirror of 41: same exemplar attribute value types as the histogram's
+		h := m.SetEmptyExponentialHistogram()
+		for k := 0; k < 3; k++ {
+			dp := h.DataPoints().AppendEmpty()
+			dp.SetCount(uint64(k + 1))
+			fillAttrs(7, dp.Attributes())
+			e := dp.Exemplars().AppendEmpty()
+			e.SetIntValue(int64(k + 1))
+			fillAttrs(7, e.FilteredAttributes())
+		}
+	case 48: // NaN exemplars on different points, the first not on point 0
+		g := m.SetEmptyGauge()
+		g.DataPoints().AppendEmpty().SetIntValue(1)
+		for k := 0; k < 2; k++ {
+			dp := g.DataPoints().AppendEmpty()
+			dp.SetIntValue(int64(k + 2))
+			dp.Exemplars().AppendEmpty().SetDoubleValue(math.NaN())
+		}
+	case 49: // 0.0 and -0.0 exemplars on different points
+		g := m.SetEmptyGauge()
+		for k := 0; k < 3; k++ {
+			dp := g.DataPoints().AppendEmpty()
+			dp.SetIntValue(int64(k))
+			v := 0.0
+			if k == 1 {
+				v = math.Copysign(0, -1)
+			}
+			dp.Exemplars().AppendEmpty().SetDoubleValue(v)
 		}
 	case 46: // large descriptor strings and attributes, many buckets
 		m.SetDescription(strings.Repeat("d", 70000))
